@@ -254,7 +254,9 @@ struct Env {
         if (pk[id].reports > 1) { oracleFail("C09:report:twice", history); return; }
         if (acked) {
             // acknowledged only while an <a h/> or <resumed h/> is being processed, and only if h covers the packet's number
-            if (!inAckOp || pk[id].seq == 0 || pk[id].seq > curH) oracleFail("C09:ack:not-covered", history);
+            // ... or later, if <failed h/> had declared it handled
+            bool byFailedH = std::find(coveredByFailed.begin(), coveredByFailed.end(), id) != coveredByFailed.end();
+            if (!byFailedH && (!inAckOp || pk[id].seq == 0 || pk[id].seq > curH)) oracleFail("C09:ack:not-covered", history);
             else oraclePass()++;
         }
         pend.erase(std::remove(pend.begin(), pend.end(), id), pend.end());
@@ -377,7 +379,9 @@ struct Env {
     void afterAck(long h)
     {
         // liveness half ("confirmed when acked"): everything numbered <= h is confirmed now
-        for (int id : pend) if (!pk[id].iq && pk[id].seq <= h) { oracleFail("C09:ack:covered-not-confirmed", history); return; }
+        // (a stanza a continuation sent while this very element was processed cannot have been handled by the server yet)
+        for (int id : pend)
+            if (!pk[id].iq && pk[id].seq <= h && std::find(nestedNow.begin(), nestedNow.end(), id) == nestedNow.end()) { oracleFail("C09:ack:covered-not-confirmed", history); return; }
         // the report of a tracked IQ request goes to the IQ manager; by the property it is confirmed now
         pend.erase(std::remove_if(pend.begin(), pend.end(), [&](int id) { return pk[id].iq && pk[id].seq <= h; }), pend.end());
         oraclePass()++;
@@ -474,6 +478,7 @@ struct Env {
         dirty = rc.forceDown;
         if (rc.forceDown) fs->down();
         inAckOp = true; curH = x.h; reentArmed = rc.reent;
+        coveredByFailed.clear();
         return x;
     }
     void postResumed(const Rc &rc, const ResumedCtx &x)
@@ -504,26 +509,33 @@ struct Env {
         return "<failed xmlns='urn:xmpp:sm:3' h='" + QByteArray::number(qlonglong(h)) + "'><item-not-found xmlns='urn:ietf:params:xml:ns:xmpp-stanzas'/></failed>";
     }
     // ---- <enabled/> (classic: own element; Bind2: inside <bound/>)
-    std::vector<int> preEnabled(const Rc &rc)
+    struct EnabledCtx { std::vector<int> all, uncovered; };
+    EnabledCtx preEnabled(const Rc &rc)
     {
         history += "{enabledNew}";
-        std::vector<int> expected = pend;
+        EnabledCtx x;
+        x.all = pend;
+        for (int id : pend) if (std::find(coveredByFailed.begin(), coveredByFailed.end(), id) == coveredByFailed.end()) x.uncovered.push_back(id);
         srvOn = true; srvValid = true; srvCount = 0; srvLastAck = 0;
         dirty = rc.forceDown;
-        return expected;
+        return x;
     }
-    void postEnabled(const Rc &rc, const std::vector<int> &expected)
+    void postEnabled(const Rc &rc, const EnabledCtx &x)
     {
-        // fresh numbering 1..n in the original order
-        myLastOut = 0;
-        for (int id : pend) pk[id].seq = ++myLastOut;
-        recvOn = strayLegit = strayPhantom = 0;
-        bool resentCovered = false;
-        for (int id : coveredByFailed) if (std::find(wirePkts.begin(), wirePkts.end(), id) != wirePkts.end()) resentCovered = true;
-        coveredByFailed.clear();
-        checkResend(expected, !rc.forceDown);
         // "covered ones are never resent": what <failed h/> declared handled must not be transmitted again on the new session
-        if (resentCovered) oracleFail("C09:resend:covered-by-failed-h", history); else oraclePass()++;
+        bool up = !rc.forceDown;
+        if (up && x.all != x.uncovered && wirePkts.size() >= x.all.size() && std::equal(x.all.begin(), x.all.end(), wirePkts.begin())) {
+            oracleFail("C09:resend:covered-by-failed-h", history);
+            checkResend(x.all, up);
+        } else {
+            checkResend(x.uncovered, up);
+        }
+        coveredByFailed.clear();
+        // fresh numbering 1..n in the original order (of what is still pending)
+        myLastOut = 0;
+        for (int id : pend) if (std::find(nestedNow.begin(), nestedNow.end(), id) == nestedNow.end()) pk[id].seq = ++myLastOut;
+        for (int id : nestedNow) if (pk[id].seq) pk[id].seq = ++myLastOut;
+        recvOn = strayLegit = strayPhantom = 0;
         checkServerCount();
         if (rc.sasl2) stat("enabled_inline_bind2");
         line(std::string("enabledNew ") + ud(rc.forceDown));
@@ -562,11 +574,11 @@ struct Env {
                 if (rc.pol == PolF) {
                     inject(docs->failed);
                 } else {
-                    auto expected = preEnabled(rc);
+                    auto ex = preEnabled(rc);
                     if (rc.forceDown) fs->down();
                     inject(parseDoc("<enabled xmlns='urn:xmpp:sm:3' resume='true' id='sess'/>"));
                     if (rc.forceDown) fs->up();
-                    postEnabled(rc, expected);
+                    postEnabled(rc, ex);
                 }
             } else if (rq == Sasl2Auth) {
                 // SASL2: <resume/> travels inside <authenticate/>, Bind2 carries <enable/>; the answers come inside <success/>
@@ -584,13 +596,13 @@ struct Env {
                     x += "<bound xmlns='urn:xmpp:bind:0'>";
                     if (hasEnable) x += rc.pol == PolF ? QByteArray("<failed xmlns='urn:xmpp:sm:3'/>") : QByteArray("<enabled xmlns='urn:xmpp:sm:3' resume='true' id='sess'/>");
                     x += "</bound></success>";
-                    std::vector<int> expected;
+                    EnabledCtx ex;
                     if (enabledPart) {
                         // both answers are processed inside one call: split the observation where onEnabled() starts
                         onSmEnabledLog = [&, this]() {
                             inAckOp = false;
                             failedObs = flushObs();
-                            expected = preEnabled(rc);
+                            ex = preEnabled(rc);
                             if (rc.forceDown) fs->down();
                         };
                     }
@@ -600,7 +612,7 @@ struct Env {
                         if (rc.forceDown) fs->up();
                         if (hasResume) lineObs(failedOp, failedObs);
                         else if (failedObs.substr(0, 2) != "-|") lineObs("unexpected-output", failedObs);
-                        postEnabled(rc, expected);
+                        postEnabled(rc, ex);
                     } else {
                         inAckOp = false;
                         if (hasResume) line(failedOp);
